@@ -395,29 +395,15 @@ func formatPayeeDetailWithCount(payee string, counts map[string]int, showCounts 
 }
 
 func extractAccountPrefix(content string, pos protocol.Position) string {
-	lines := strings.Split(content, "\n")
-	if int(pos.Line) >= len(lines) {
-		return ""
-	}
+	// The prefix is what has been typed of the account name, up to its last colon. Account
+	// names may contain single blanks ("assets:my bank:savings"), so it is not cut at a blank.
+	typed := extractQueryText(content, pos, ContextAccount)
 
-	line := lines[pos.Line]
-	byteCol := lsputil.UTF16OffsetToByteOffset(line, int(pos.Character))
-	if byteCol > len(line) {
-		byteCol = len(line)
-	}
-
-	beforeCursor := strings.TrimSpace(line[:byteCol])
-
-	lastColon := strings.LastIndex(beforeCursor, ":")
+	lastColon := strings.LastIndex(typed, ":")
 	if lastColon == -1 {
 		return ""
 	}
-
-	start := strings.LastIndexAny(beforeCursor[:lastColon], " \t")
-	if start == -1 {
-		return beforeCursor[:lastColon+1]
-	}
-	return beforeCursor[start+1 : lastColon+1]
+	return typed[:lastColon+1]
 }
 
 func getAccountsForPrefix(accounts *analyzer.AccountIndex, prefix string) []string {
@@ -425,8 +411,17 @@ func getAccountsForPrefix(accounts *analyzer.AccountIndex, prefix string) []stri
 		return accounts.All
 	}
 
-	if accs, ok := accounts.ByPrefix[prefix]; ok {
-		return accs
+	// The candidates are filtered case-insensitively afterwards, so the index is consulted
+	// case-insensitively too: otherwise "assets:" would hide the accounts under "Assets:".
+	prefixLower := strings.ToLower(prefix)
+	var narrowed []string
+	for key, accs := range accounts.ByPrefix {
+		if strings.ToLower(key) == prefixLower {
+			narrowed = append(narrowed, accs...)
+		}
+	}
+	if len(narrowed) > 0 {
+		return narrowed
 	}
 
 	return accounts.All
